@@ -179,7 +179,8 @@ theorem textE_eq (b : Builder) (t : StrSpan) : b.textE t = b.text t := by
 
 def Builder.stepE (b : Builder) : Token → Step Builder
   | .attribute pfx loc value _ =>
-    if pfx.text == ['x', 'm', 'l', 'n', 's'] then b.prefixE loc.text value (Span.fromPrefixName pfx loc)
+    if pfx.bareColon then .err (qnameError pfx loc) b.env
+    else if pfx.text == ['x', 'm', 'l', 'n', 's'] then b.prefixE loc.text value (Span.fromPrefixName pfx loc)
     else if pfx.text.isEmpty && loc.text == ['x', 'm', 'l', 'n', 's'] then
       b.prefixE [] value (Span.fromPrefixName pfx loc)
     else b.attributeE pfx loc value
